@@ -226,6 +226,10 @@ impl GenerationPass for AvailableValuePass {
                 );
                 // TODO stack reset?
 
+                // The zero register cannot be given a value: whatever an
+                // instruction "writes" to it is discarded.
+                out_reg_n -= Register::const_zero_set().iter();
+
                 // If either of the outs changed, replace the old outs with the new outs
                 // and mark that we changed something.
                 changed |= node.set_reg_values_out(out_reg_n);
